@@ -164,6 +164,21 @@ def body_units(H, case):
             else:
                 H.prove_eq(f"biot_savart_2d scalar [{i}] = SI sum", K.at(Bm, i), ref[2], timeout=120, scale=1e-30)
         unchanged(H, f"vector={vector}", snap, pos=pos, J=J, areas=areas, ev=ev)
+    # input forms: a plane of constant height (scalar z) over coordinates the user typed as integers - the same
+    # physical points as the float coordinates, so the same field
+    zh = H.real("z_plane", lo=0.3, hi=1.7)
+    xi_, yi_ = np.array([2, -1][:n]), np.array([1, 3][:n])
+    for form, (xa, ya) in {"integer arrays": (xi_, yi_), "lists of Python ints": ([int(v) for v in xi_], [int(v) for v in yi_])}.items():
+        B = biot_savart_2d(xa, ya, zh, positions=pos, current_densities=J, z0=z0, areas=areas, length_units=case.lu, current_units=case.cu, vector=True)
+        Bm = B.magnitude
+        pos3 = H.array2([[K.at(pos, k, 0) * to_m, K.at(pos, k, 1) * to_m, z0 * to_m] for k in range(m)])
+        ev_m = H.array2([[float(xi_[i]) * to_m, float(yi_[i]) * to_m, zh * to_m] for i in range(len(xi_))])
+        J_si = H.array2([[K.at(J, k, c) * to_Am for c in range(2)] for k in range(m)])
+        a_si = H.array([K.at(areas, k) * to_m**2 for k in range(m)])
+        for i in range(len(xi_)):
+            ref = reference(H, ev_m, pos3, J_si, a_si, i)
+            for c in range(3):
+                H.prove_eq(f"plane of constant height over {form}: field [{i},{c}] = SI sum at the requested height", K.at(Bm, i, c), ref[c], timeout=120, scale=1e-30)
 
 
 def snapshot(**arrays):
